@@ -22,6 +22,7 @@ RULE = (
     "fingerprints of the template and of every input frame (values, dtypes, index, column order) are equal before and after; every backtest's full history equals the history of a "
     "lone backtest of a fresh template (RNG seeded identically before each run) whatever the order and siblings; a second run() changes nothing and calls no algo. "
     "hashseed: the same spec executed in fresh interpreter processes with PYTHONHASHSEED 0, 1, 2 and random gives bit-identical histories. "
+    "twodata: one template run over two data sets (same tickers and dates, different prices) in generated orders within one process; each run equals a lone run of that data in a fresh process. "
     "benchmark: benchmark_random(backtest, template, nsim) builds nsim backtests from the template it is handed: template and data fingerprints unchanged, nsim distinct random results. "
     "non-trivial = at least two backtests from one template with a stateful or RNG algo (template) / a declared-children or RNG spec across >= 3 hash seeds (hashseed). distinct = distinct spec hashes."
 )
@@ -289,6 +290,58 @@ def hashseed_spec(draw):
     return spec
 
 
+# ---- one template, several data sets ------------------------------------------------------------------
+@st.composite
+def twodata_spec(draw):
+    """one template run over two data sets with the same tickers and dates but different prices, in one process: nothing computed for
+    one of them may leak into the other (results keyed by anything coarser than the data itself)"""
+    ds = draw(gen.dates(10, 18, kinds=("bday", "daily")))
+    n = len(ds)
+    nt = draw(st.integers(2, 4))
+    tickers = gen.TICKERS[:nt]
+    pr_a = {t: draw(gen.price_path(n, vol=draw(st.sampled_from([0.01, 0.03, 0.08])), decimals=4)) for t in tickers}
+    pr_b = {t: draw(gen.price_path(n, vol=draw(st.sampled_from([0.01, 0.03, 0.08])), decimals=4)) for t in tickers}
+    g = gen.max_gap_days(ds)
+    lb = {"days": draw(st.integers(5 * g, 5 * g + 10))}
+    weigh = draw(st.sampled_from([["WeighERC", {"lookback": lb}], ["WeighMeanVar", {"lookback": lb}], ["WeighInvVol", {"lookback": lb}], ["WeighEqually", {}]]))
+    if weigh[0] == "WeighEqually":
+        sel = [["SelectAll", {}], ["SelectMomentum", {"n": draw(st.integers(1, nt - 1)), "lookback": lb}]]
+    else:
+        sel = [["SelectThese", {"tickers": list(tickers)}]]
+    when = draw(st.integers(7, n - 1))
+    gate = draw(st.sampled_from([["RunOnDate", {"dates": [ds[when]]}], ["RunOnDate", {"dates": [ds[when]]}], ["RunAfterDays", {"days": when}], ["RunMonthly", {}]]))
+    tree = {"name": "root", "kind": "Strategy", "algos": [gate] + sel + [weigh, ["Rebalance", {}]]}
+    if draw(st.booleans()):
+        tree["children"] = list(tickers)
+    return {"dates": ds, "prices": pr_a, "prices_b": pr_b, "rng_seed": 0, "frames": {}, "additional": [], "integer_positions": draw(st.booleans()), "initial_capital": 1e6, "fee": {"kind": "none"}, "tree": tree, "order": draw(st.sampled_from(["AB", "ABA", "BA", "AAB"]))}
+
+
+def case_twodata(ctx, spec):
+    bt = ctx.bt
+    specs = {"A": {k: v for k, v in spec.items() if k not in ("prices_b", "order")}}
+    specs["B"] = dict(specs["A"], prices=spec["prices_b"])
+    ref = {}
+    # references in fresh interpreter processes: whatever a process-wide cache may hold, it is empty there
+    for k in "AB":
+        o = run_in_process(specs[k], ctx.kind, 0)
+        if "error" in o:
+            raise Discard("run raises (C10's business)")
+        ref[k] = o["history"]
+    frames = interp.mk_frames(specs["A"])
+    template = interp.mk_node(bt, spec["tree"], specs["A"], frames)
+    for i, k in enumerate(spec["order"]):
+        interp.seed_rngs(specs[k])
+        b = mk(bt, specs[k], template, interp.mk_data(specs[k]), {}, None)
+        try:
+            run_quiet(b)
+        except Exception as e:
+            raise Violation("backtest #%d (data %s) of the order %s raised %s: %s although a lone run in a fresh process completes" % (i, k, spec["order"], type(e).__name__, str(e)[:150]), signature="c11:twodata-raises")
+        d = first_diff(ref[k], interp.tree_history(b.strategy, bt))
+        if d:
+            raise Violation("one template over two data sets (order %s): run #%d on data %s differs from a lone run of it in a fresh process: %s" % (spec["order"], i, k, d), signature="c11:twodata")
+    return {"nontrivial": True, "labels": [spec["tree"]["algos"][-2][0], "order=" + spec["order"]]}
+
+
 # ---- benchmark_random builds many backtests from one template --------------------------------------
 @st.composite
 def benchmark_spec(draw):
@@ -329,11 +382,12 @@ def case_benchmark(ctx, spec):
     return {"nontrivial": spec["nsim"] >= 2, "labels": ["nsim=%d" % spec["nsim"]]}
 
 
-SUBS = {"template": case_template, "hashseed": case_hashseed, "benchmark": case_benchmark}
-STRATS = {"template": template_spec, "hashseed": hashseed_spec, "benchmark": benchmark_spec}
+SUBS = {"template": case_template, "hashseed": case_hashseed, "benchmark": case_benchmark, "twodata": case_twodata}
+STRATS = {"template": template_spec, "hashseed": hashseed_spec, "benchmark": benchmark_spec, "twodata": twodata_spec}
 
 
 def shard(ctx):
     run_sub(ctx, "template", template_spec(), lambda s: case_template(ctx, s), ctx.n(640, 8000))
     run_sub(ctx, "hashseed", hashseed_spec(), lambda s: case_hashseed(ctx, s), ctx.n(32, 400))
     run_sub(ctx, "benchmark", benchmark_spec(), lambda s: case_benchmark(ctx, s), ctx.n(160, 2000))
+    run_sub(ctx, "twodata", twodata_spec(), lambda s: case_twodata(ctx, s), ctx.n(48, 600))
